@@ -70,7 +70,8 @@ func c05Messages(thorough bool) []string {
 }
 
 func c05Details(n int) []proto.Message {
-	ds := []proto.Message{wrapperspb.String("detail-one"), durationpb.New(1500000000)}
+	// the third detail is large (a stack trace, say): 3 KiB
+	ds := []proto.Message{wrapperspb.String("detail-one"), durationpb.New(1500000000), wrapperspb.String(strings.Repeat("at frame.go:1\n", 220))}
 	return ds[:n]
 }
 
@@ -360,6 +361,9 @@ func (e *c05Env) exec(tc *c05Case) (oracle, note string) {
 func c05Cases(thorough bool) []c05Case {
 	msgs := c05Messages(thorough)
 	few := []string{"", "plain", "a%b é\n", strings.Repeat("y", 122) + "é"}
+	// scale: messages around 2 KiB and 4 KiB (fixed-size scratch buffers), 6 kB, 70 kB, 2100 bytes of
+	// CJK (6300 bytes percent-encoded); with 0..3 details, the third one 3 KiB
+	long := []string{strings.Repeat("x", 2011), strings.Repeat("x", 2012), strings.Repeat("x", 4059), strings.Repeat("x", 4060), strings.Repeat("z", 6000), strings.Repeat("日", 700), strings.Repeat("w", 70000)}
 	protos := []string{"http-json", "http-proto", "http-implicit", "twirp-json", "twirp-proto", "grpc", "grpc+proto", "grpc+json", "web", "web+proto", "web+json", "webtext", "webtext+proto", "grpc-gzip", "web-gzip", "webtext-gzip", "ws"}
 	var out []c05Case
 	for _, p := range protos {
@@ -377,9 +381,14 @@ func c05Cases(thorough bool) []c05Case {
 				// every code × a few messages × details
 				for _, code := range c05Codes {
 					for _, m := range few {
-						for d := 0; d <= 2; d++ {
+						for d := 0; d <= 3; d++ {
 							out = append(out, c05Case{Proto: p, Shape: sh, Code: code, Message: m, Details: d, After: after})
 						}
+					}
+				}
+				for _, m := range long {
+					for d := 0; d <= 3; d++ {
+						out = append(out, c05Case{Proto: p, Shape: sh, Code: 5, Message: m, Details: d, After: after})
 					}
 				}
 				// the handler sends its headers first (grpc.SendHeader), then fails: the status must
@@ -417,7 +426,7 @@ func c05Cases(thorough bool) []c05Case {
 
 func runC05(c *Ctx) {
 	r := c.Run
-	r.Rule("protocol{HTTP json/proto/implicit route, Twirp json/proto, gRPC (+proto,+json), gRPC-web (+proto,+json), gRPC-web-text (+proto), gRPC / gRPC-web / gRPC-web-text with gzip message compression negotiated, WebSocket} × shape{unary, client-, server-, bidi-streaming} × error position{before any reply, before any reply but after grpc.SendHeader, after 1, after 2} × code{1..16,17,18,100,2^31,2^32-1} × message{all strings of length <= 3 over {a,%,space,\\n,é} (thorough: length <= 4 over those plus DEL, NUL, a 4-byte rune, '+', '4'), %41, CJK, DEL, control chars, 200×x, lengths 119..126 with and without a multi-byte rune on the close-frame boundary} × details{0,1,2}; plus three messages that are not valid UTF-8 (only 'an error response is produced' is demanded); distinct = (protocol, shape, position, code class, message class) combinations that produced a decodable status")
+	r.Rule("protocol{HTTP json/proto/implicit route, Twirp json/proto, gRPC (+proto,+json), gRPC-web (+proto,+json), gRPC-web-text (+proto), gRPC / gRPC-web / gRPC-web-text with gzip message compression negotiated, WebSocket} × shape{unary, client-, server-, bidi-streaming} × error position{before any reply, before any reply but after grpc.SendHeader, after 1, after 2} × code{1..16,17,18,100,2^31,2^32-1} × message{all strings of length <= 3 over {a,%,space,\\n,é} (thorough: length <= 4 over those plus DEL, NUL, a 4-byte rune, '+', '4'), %41, CJK, DEL, control chars, 200×x, lengths 119..126 with and without a multi-byte rune on the close-frame boundary} × details{0,1,2,3 (the third 3 KiB)}; messages of 2011/2012/4059/4060/6000/70000 bytes and 700 CJK characters × details on every protocol, shape and position; plus three messages that are not valid UTF-8 (only 'an error response is produced' is demanded); distinct = (protocol, shape, position, code class, message class) combinations that produced a decodable status")
 	r.Assume("CANCELLED may map to 408 or 499; Twirp HTTP statuses and Twirp names of out-of-range codes are not demanded; the WebSocket close code is larking's exported WSStatusCode table (pinned in ref/wire); error framing after HTTP stream messages is not demanded", "leading/trailing spaces of the message are not representable in a gRPC-web trailer frame and are not compared there")
 	cases := c05Cases(c.Thorough())
 	envs := make([]*c05Env, explore.Workers)
